@@ -582,3 +582,224 @@ Print Assumptions c07_e2e_needs_total_within_u64.
 Print Assumptions c07_e2e_needs_i64_length.
 Print Assumptions c07_e2e_needs_u16_port.
 Print Assumptions c07_e2e_needs_i64_piece_length.
+
+(* ====================================================================================================== *)
+(** * the calendar text and the humanised sizes made concrete (X11)
+
+    Until X11 [cal] (chrono's rendering of the creation date) and [human] (Display for Bytes) were universally
+    quantified in every statement above. They are now concrete: Model/Calendar.v's [cal] (civil-from-days arithmetic,
+    chrono 0.4.38's text, chrono's range) and Model/ShowConcrete.v's [human_display] (= Model/ByteSize.v's
+    [bs_display], C16). The theorems above still hold for every [cal] / [human]; below are (1) what is proved of the
+    concrete calendar, for EVERY second count - the text denotes exactly the stored integer, its fields are a valid
+    proleptic-Gregorian date, the rendering is strictly monotone and injective, it exists exactly up to
+    8210266876799 (262142-12-31 23:59:59, measured on the real binary), the Creation Date row determines the stored
+    integer, the layout - and (2) the show theorems at that instance.
+    Proofs: Proofs/CalendarProofs.v, Proofs/ShowConcreteProofs.v, Proofs/ShowConcreteE2E.v. The tie of [Calendar.cal]
+    to the real binary is the boundary sweep and the random sweep of tools/props/c07.py (section "calendar"). *)
+From Imdl Require Model.ByteSize.
+From Imdl Require Import Model.Calendar Proofs.CalendarProofs Model.ShowConcrete Proofs.ShowConcreteProofs
+  Proofs.ShowConcreteE2E.
+
+(** (a) the printed text denotes exactly the stored second count: the spec-side reader [cal_parse] (year, month, day,
+    time of day through [days_from_civil] = counting years, leap days and months) takes it back to [n] *)
+Check cal_parse_cal : forall n t, Calendar.cal n = Some t -> cal_parse t = Some n.
+Theorem c07_calendar_text_denotes_stored : forall n t, Calendar.cal n = Some t -> cal_parse t = Some n.
+Proof. exact cal_parse_cal. Qed.
+
+(** ... and the reader accepts nothing else: within chrono's range a text denotes [n] exactly when it is [n]'s text *)
+Theorem c07_calendar_reader_exact :
+  forall t n, n <= cal_max -> (Calendar.cal n = Some t <-> cal_parse t = Some n).
+Proof. exact cal_parse_iff. Qed.
+
+(** the arithmetic under it, for every integer day count (negative ones too): what [civil_from_days] returns is a
+    valid date whose day count is the input *)
+Theorem c07_civil_from_days_inverts :
+  forall z : Z,
+    let '(y, m, d) := civil_from_days z in
+    (1 <= m <= 12 /\ 1 <= d <= days_in_month y m /\ days_from_civil y m d = z /\ (z + 719468) / 146097 * 400 <= y)%Z.
+Proof. exact civil_from_days_spec. Qed.
+
+(** (b) the fields printed for [n] form a valid proleptic-Gregorian date (month 1..12, day 1..length of the month
+    with the 4/100/400 leap rule) and time of day, and they denote [n] *)
+Theorem c07_calendar_fields_valid :
+  forall n,
+    let s := fields n in
+    1 <= s_month s <= 12 /\ (1 <= Z.of_N (s_day s) <= days_in_month (Z.of_N (s_year s)) (Z.of_N (s_month s)))%Z /\
+    s_hour s < 24 /\ s_min s < 60 /\ s_sec s < 60.
+Proof. exact cal_valid_fields. Qed.
+
+Theorem c07_calendar_fields_denote :
+  forall n, valid_stamp (fields n) = true /\ secs_of (fields n) = Z.of_N n /\ 1600 <= s_year (fields n).
+Proof. exact fields_spec. Qed.
+
+Theorem c07_leap_rule :
+  forall y : Z, is_leap y = ((y mod 4 =? 0) && (negb (y mod 100 =? 0) || (y mod 400 =? 0)))%Z.
+Proof. intros y. reflexivity. Qed.
+
+(** (c) strictly monotone in the natural order of (year, month, day, hour, minute, second), both ways; injective *)
+Theorem c07_calendar_monotone : forall n1 n2, n1 < n2 <-> stamp_lt (fields n1) (fields n2).
+Proof. exact fields_mono_iff. Qed.
+
+Theorem c07_calendar_injective : forall n1 n2 t, Calendar.cal n1 = Some t -> Calendar.cal n2 = Some t -> n1 = n2.
+Proof. exact cal_inj. Qed.
+
+(** (d) a calendar text exists exactly up to [cal_max]; chrono's own checks decide exactly that range *)
+Theorem c07_calendar_range :
+  cal_max = 8210266876799 /\
+  (forall n, Calendar.cal n = None <-> cal_max < n) /\
+  (forall n t, Calendar.cal n = Some t <-> n <= cal_max /\ t = stamp_text (fields n)) /\
+  (forall n, chrono_accepts n = true <-> n <= cal_max).
+Proof. exact (conj eq_refl (conj cal_none_iff (conj cal_some accepts_iff))). Qed.
+
+(** (e) the Creation Date row - calendar text, else decimal digits - determines the stored integer *)
+Theorem c07_creation_date_text_injective :
+  forall d1 d2, date_text Calendar.cal d1 = date_text Calendar.cal d2 -> d1 = d2.
+Proof. exact date_text_inj. Qed.
+
+Theorem c07_creation_date_row_determines :
+  forall m1 m2 c1 c2 l1 l2 ih1 ih2,
+    row_values tab_values (table_of Calendar.cal m1 c1 l1 ih1) (lit "Creation Date") =
+    row_values tab_values (table_of Calendar.cal m2 c2 l2 ih2) (lit "Creation Date") ->
+    m_creation_date m1 = m_creation_date m2.
+Proof. exact creation_date_row_determines. Qed.
+
+(** (f) layout: 23 ASCII bytes `YYYY-MM-DD HH:MM:SS UTC` up to the year 9999; `+`, the year in decimal and the same
+    19-byte tail from 253402300800 on *)
+Theorem c07_calendar_shape :
+  forall n t,
+  Calendar.cal n = Some t ->
+  (exists m1 m2 d1 d2 h1 h2 i1 i2 s1 s2,
+     let tail := [45; m1; m2; 45; d1; d2; 32; h1; h2; 58; i1; i2; 58; s1; s2; 32; 85; 84; 67] in
+     digit m1 /\ digit m2 /\ digit d1 /\ digit d2 /\ digit h1 /\ digit h2 /\ digit i1 /\ digit i2 /\ digit s1 /\ digit s2 /\
+     ((n < 253402300800 /\ exists a b c d, t = [a; b; c; d] ++ tail /\ digit a /\ digit b /\ digit c /\ digit d) \/
+      (253402300800 <= n /\ 9999 < s_year (fields n) /\ t = 43 :: dec (s_year (fields n)) ++ tail))) /\
+  Forall (fun b => b < 128) t.
+Proof. exact cal_shape. Qed.
+
+Theorem c07_calendar_length : forall n t, Calendar.cal n = Some t -> n < 253402300800 -> List.length t = 23%nat.
+Proof. exact cal_length. Qed.
+
+(** [human] can be Display for Bytes (C16): on every u64 [human_display] is [bs_display], and every number `show`
+    humanises is a u64 *)
+Theorem c07_human_is_bytes_display :
+  (forall n, n < 2 ^ 64 -> ByteSize.bs_display n = Some (human_display n)) /\
+  (forall host_disp url_norm v m,
+     typed_of_value host_disp url_norm v = Some m ->
+     m_piece_length m < 2 ^ 64 /\ total_length (m_mode m) < 2 ^ 64 /\
+     (forall d, m_creation_date m = Some d -> d < 2 ^ 64)).
+Proof. exact (conj human_display_eq shown_sizes_are_u64). Qed.
+
+(** the show theorems at [cal := Calendar.cal], [human := human_display] *)
+Theorem c07_concrete_show_reports_decoded :
+  forall host_disp url_norm src input ih j tab term,
+    show_concrete host_disp url_norm src input ih = ShowPrinted j tab term ->
+    exists v rest m,
+      input = encode v ++ rest /\
+      typed_of_value host_disp url_norm v = Some m /\
+      j = spec_json host_disp url_norm (is_single m) v (N.of_nat (List.length input)) ih /\
+      tab = render_tab (table_of Calendar.cal m (total_length (m_mode m)) (N.of_nat (List.length input)) ih) /\
+      term = render_term human_display
+               (table_of Calendar.cal m (total_length (m_mode m)) (N.of_nat (List.length input)) ih).
+Proof. exact concrete_show_reports_decoded. Qed.
+
+Theorem c07_concrete_same_values :
+  (forall m c input_len ih,
+     same_values Calendar.cal dec tab_values (table_of Calendar.cal m c input_len ih) (json_of m c input_len ih)) /\
+  (forall m c input_len ih,
+     same_values Calendar.cal human_display (term_values human_display) (table_of Calendar.cal m c input_len ih)
+       (json_of m c input_len ih)) /\
+  (forall host_disp url_norm v input_len ih,
+     show_value Calendar.cal human_display host_disp url_norm v input_len ih <> ShowPanicked) /\
+  (forall host_disp url_norm input ih,
+     show_concrete host_disp url_norm FromStdin input ih = show_concrete host_disp url_norm FromPath input ih).
+Proof.
+  exact (conj concrete_tab_same_values (conj concrete_terminal_same_values
+          (conj concrete_show_never_panics concrete_stdin_same))).
+Qed.
+
+(** "the text rendering's Creation Date denotes exactly the stored integer": for every printed report the JSON
+    number is the stored creation date; the text row is its calendar text when chrono has one - and that text reads
+    back to exactly the stored integer - and its decimal digits otherwise; the humanised sizes are Display for Bytes *)
+Theorem c07_concrete_report_creation_date :
+  forall host_disp url_norm src input ih j tab term,
+  show_concrete host_disp url_norm src input ih = ShowPrinted j tab term ->
+  exists v rest m,
+    input = encode v ++ rest /\ typed_of_value host_disp url_norm v = Some m /\
+    let t := table_of Calendar.cal m (total_length (m_mode m)) (N.of_nat (List.length input)) ih in
+    tab = render_tab t /\ term = render_term human_display t /\
+    jfield j (lit "creation_date") = jopt_num (m_creation_date m) /\
+    match m_creation_date m with
+    | None => row_values tab_values t (lit "Creation Date") = []
+    | Some d =>
+        exists text, row_values tab_values t (lit "Creation Date") = [text] /\
+          ((d <= cal_max /\ Calendar.cal d = Some text /\ cal_parse text = Some d) \/ (cal_max < d /\ text = dec d))
+    end /\
+    ByteSize.bs_display (m_piece_length m) = Some (human_display (m_piece_length m)) /\
+    ByteSize.bs_display (total_length (m_mode m)) = Some (human_display (total_length (m_mode m))).
+Proof. exact concrete_report_creation_date. Qed.
+
+(** end to end with create at the concrete renderers, and the clock: `show` of the written bytes prints the creation
+    date as the calendar text of the clock value, which reads back to exactly the clock value *)
+Theorem c07_concrete_written_bytes_show_back :
+  forall norm host_canon git_suffix host_disp url_norm url_ok src o c tb name nodes upd ih,
+    Metainfo.input_ok (Metainfo.c_input c) = true -> Metainfo.opts_ok o = true ->
+    texts_utf8 norm host_canon git_suffix o c = true -> content_shown_ok (Metainfo.o_md5 o) c = true ->
+    Metainfo.create_bytes norm url_ok host_canon git_suffix o c = Some tb ->
+    Metainfo.name_of o (Metainfo.c_input c) = Some name ->
+    nodes_text host_canon host_disp o = Some nodes -> update_text norm url_norm o = Some upd ->
+    let len := N.of_nat (List.length tb) in
+    let t := table_of Calendar.cal (requested norm git_suffix o c name nodes upd)
+               (Metainfo.total_size (Metainfo.c_input c)) len ih in
+    show_concrete host_disp url_norm src tb ih =
+    ShowPrinted (requested_json norm git_suffix o c name nodes upd len ih) (render_tab t) (render_term human_display t).
+Proof. exact concrete_written_bytes_show_back. Qed.
+
+Theorem c07_created_creation_date_row :
+  forall norm git_suffix o c name nodes upd size len ih,
+  let t := table_of Calendar.cal (requested norm git_suffix o c name nodes upd) size len ih in
+  (Metainfo.o_no_creation_date o = true -> row_values tab_values t (lit "Creation Date") = []) /\
+  (Metainfo.o_no_creation_date o = false ->
+     row_values tab_values t (lit "Creation Date") = [creation_date_text (Metainfo.o_now o)] /\
+     (Metainfo.o_now o <= cal_max ->
+        Calendar.cal (Metainfo.o_now o) = Some (creation_date_text (Metainfo.o_now o)) /\
+        cal_parse (creation_date_text (Metainfo.o_now o)) = Some (Metainfo.o_now o))).
+Proof. exact created_creation_date_row. Qed.
+
+(** instances: the boundary values the correspondence run also puts to the real binary *)
+Example c07_calendar_examples :
+  Calendar.cal 0 = Some (bs "1970-01-01 00:00:00 UTC") /\
+  Calendar.cal 951782399 = Some (bs "2000-02-28 23:59:59 UTC") /\
+  Calendar.cal 951782400 = Some (bs "2000-02-29 00:00:00 UTC") /\
+  Calendar.cal 4107542399 = Some (bs "2100-02-28 23:59:59 UTC") /\
+  Calendar.cal 4107542400 = Some (bs "2100-03-01 00:00:00 UTC") /\
+  Calendar.cal 2147483648 = Some (bs "2038-01-19 03:14:08 UTC") /\
+  Calendar.cal 253402300799 = Some (bs "9999-12-31 23:59:59 UTC") /\
+  Calendar.cal 253402300800 = Some (bs "+10000-01-01 00:00:00 UTC") /\
+  Calendar.cal 8210266876799 = Some (bs "+262142-12-31 23:59:59 UTC") /\
+  Calendar.cal 8210266876800 = None /\ Calendar.cal (2 ^ 63) = None /\ Calendar.cal (2 ^ 64 - 1) = None /\
+  cal_parse (bs "+262142-12-31 23:59:59 UTC") = Some 8210266876799 /\
+  cal_parse (bs "2001-02-29 00:00:00 UTC") = None /\ cal_parse (bs "1969-12-31 23:59:59 UTC") = None /\
+  date_text Calendar.cal 8210266876800 = bs "8210266876800" /\
+  human_display 1536 = bs "1.5 KiB" /\ human_display (2 ^ 64 - 1) = bs "16 EiB".
+Proof. vm_compute. repeat split; reflexivity. Qed.
+
+Print Assumptions c07_calendar_text_denotes_stored.
+Print Assumptions c07_calendar_reader_exact.
+Print Assumptions c07_civil_from_days_inverts.
+Print Assumptions c07_calendar_fields_valid.
+Print Assumptions c07_calendar_fields_denote.
+Print Assumptions c07_leap_rule.
+Print Assumptions c07_calendar_monotone.
+Print Assumptions c07_calendar_injective.
+Print Assumptions c07_calendar_range.
+Print Assumptions c07_creation_date_text_injective.
+Print Assumptions c07_creation_date_row_determines.
+Print Assumptions c07_calendar_shape.
+Print Assumptions c07_calendar_length.
+Print Assumptions c07_human_is_bytes_display.
+Print Assumptions c07_concrete_show_reports_decoded.
+Print Assumptions c07_concrete_same_values.
+Print Assumptions c07_concrete_report_creation_date.
+Print Assumptions c07_concrete_written_bytes_show_back.
+Print Assumptions c07_created_creation_date_row.
+Print Assumptions c07_calendar_examples.
